@@ -59,9 +59,9 @@ type errInjected struct{}
 
 func (errInjected) Error() string { return "injected write error" }
 
-func (l logFs) FS() fs.FS                              { return l.inner.FS() }
-func (l logFs) Stat(name string) (os.FileInfo, error)  { return l.inner.Stat(name) }
-func (l logFs) DeleteFile(name string) error           { return l.inner.DeleteFile(name) }
+func (l logFs) FS() fs.FS                             { return l.inner.FS() }
+func (l logFs) Stat(name string) (os.FileInfo, error) { return l.inner.Stat(name) }
+func (l logFs) DeleteFile(name string) error          { return l.inner.DeleteFile(name) }
 func (l logFs) WriteFile(name string, b []byte) error {
 	idx := *l.n
 	*l.n++
@@ -178,6 +178,9 @@ func observeDir(m fstest.MapFS, reg *keyRegistry) ([]J, map[string]certObs) {
 		items = append(items, it)
 	}
 	for _, it := range items {
+		if it.o.Blocks == nil {
+			it.o.Blocks = []string{}
+		}
 		e := J{"path": it.p, "blocks": it.o.Blocks, "trailing": it.o.Trailing, "mtime": rank[it.p], "size": len(m[it.p].Data)}
 		if it.o.HashLine != nil {
 			e["hash"] = *it.o.HashLine
@@ -310,6 +313,7 @@ func execPki(raw json.RawMessage) any {
 	before := snapshotNonPem(m)
 	reg := newKeyRegistry()
 	prePems, _ := observeDir(m, reg)
+	ranksPre := mtimeRanks(m)
 	res := runSign(m, in.Strat, in.Fault)
 	after := snapshotNonPem(m)
 	same := len(before) == len(after)
@@ -322,7 +326,7 @@ func execPki(raw json.RawMessage) any {
 	verifyMatrix(pems, certs, reg)
 	return J{"openErr": res.OpenErr, "planErr": res.PlanErr, "updateErr": res.UpdateErr, "panic": res.Panic, "died": res.Died,
 		"plan": res.Plan, "generated": res.Generated, "writes": res.Writes, "t0": res.T0, "t1": res.T1,
-		"pre": prePems, "pems": pems, "keys": reg.keys, "nonPemUnchanged": same}
+		"pre": prePems, "ranksPre": ranksPre, "pems": pems, "keys": reg.list(), "nonPemUnchanged": same}
 }
 
 var _ = bytes.Equal
